@@ -2,9 +2,10 @@ package e2
 
 import (
 	"bytes"
-	"os"
 	"encoding/json"
 	"fmt"
+	"os"
+	"runtime"
 	"runtime/debug"
 	"strconv"
 	"strings"
@@ -45,6 +46,8 @@ type c07Scenario struct {
 	Rescan    bool         `json:"rescan,omitempty"`
 	Func      string       `json:"func,omitempty"`
 	Input     string       `json:"input,omitempty"`
+	Shape     string       `json:"shape,omitempty"` // kind "scaling": which part of a record is scaled
+	N         int          `json:"n,omitempty"`     // kind "scaling": units at the small size (the large one has 4x)
 }
 
 func (p streamPart) bytes() (out []byte, genbank bool) {
@@ -236,6 +239,20 @@ func applyEdit(lines []string, e textEdit) []string {
 			s[e.At%len(s)] ^= byte(e.Mask)
 		}
 		return splitLines(s)
+	case "bad-date":
+		out := append([]string(nil), lines...)
+		for i := 0; i < n; i++ {
+			if strings.HasPrefix(out[i], "LOCUS") {
+				f := strings.Fields(out[i])
+				if len(f) > 0 {
+					out[i] = strings.Replace(out[i], f[len(f)-1], e.Text, 1)
+				}
+				if i >= l {
+					break
+				}
+			}
+		}
+		return out
 	case "inflate-number":
 		out := append([]string(nil), lines...)
 		for i := l; i < n; i++ {
@@ -312,7 +329,7 @@ func genParts(r *core.RNG) []streamPart {
 }
 
 func genEdit(r *core.RNG, nlines, nbytes int) textEdit {
-	ops := []string{"del-line", "dup-line", "swap-lines", "shrink-indent", "grow-indent", "drop-value", "long-name", "flip", "flip", "inflate-number", "replace-line"}
+	ops := []string{"del-line", "dup-line", "swap-lines", "shrink-indent", "grow-indent", "drop-value", "long-name", "flip", "flip", "inflate-number", "replace-line", "bad-date"}
 	e := textEdit{Op: ops[r.Intn(len(ops))], Line: r.Intn(nlines + 1)}
 	if r.Chance(1, 2) && nlines > 30 {
 		e.Line = r.Intn(30) // the header is where the structure is
@@ -327,6 +344,8 @@ func genEdit(r *core.RNG, nlines, nbytes int) textEdit {
 	case "flip":
 		e.At = r.Intn(nbytes + 1)
 		e.Mask = []int{1, 2, 4, 8, 16, 32, 64, 128, 0x20, 0xff}[r.Intn(10)]
+	case "bad-date":
+		e.Text = []string{"31-APR-2021", "29-FEB-2019", "00-JAN-2020", "32-DEC-1999", "31-JUN-2020", "30-FEB-2000", "1-1-1", "31-SEP-1985"}[r.Intn(8)]
 	case "inflate-number":
 		e.Text = []string{"0", "00", "000", "99999999999999999999"}[r.Intn(4)]
 	case "replace-line":
@@ -634,7 +653,7 @@ var stringSeeds = map[string][]string{
 	"AsLocator":  {"^..$", "CDS/gene=A@^-10..$", "1..10", "3", "@^..$", "gene@^..^+30", "$-20..$", "source", "10..1@^+1..$-1", "CDS/product=prot.*/gene"},
 	"AsModifier": {"^..$", "^-10..^+5", "$-3..$", "^+1..$-1", "^", "$", "^-5", "$+5", "^..^", "$..$"},
 	"Selector":   {"CDS", "CDS/gene=A/product", "/note=x.*", "gene/locus_tag", "/", "source/organism=Esch.*"},
-	"AsDate":     {"11-OCT-2018", "29-FEB-2000", "01-Jan-1999", "31-12-2020"},
+	"AsDate":     {"11-OCT-2018", "29-FEB-2000", "01-Jan-1999", "31-12-2020", "31-APR-2021", "29-FEB-2019", "00-JAN-2020", "32-DEC-1999", "31-JUN-2020"},
 	"AsMolecule": {"DNA", "RNA", "AA", "ss-DNA", "ds-DNA"},
 	"AsTopology": {"linear", "circular"},
 	"FeatureTable": {"     gene            1..10\n                     /gene=\"x\"\n     CDS             complement(join(2..5,8..10))\n                     /codon_start=1\n                     /pseudo\n                     /note=\"two\n                     lines\"\n",
@@ -643,38 +662,42 @@ var stringSeeds = map[string][]string{
 
 var stringFuncs = []string{"AsLocation", "AsLocator", "AsModifier", "Selector", "AsDate", "AsMolecule", "AsTopology", "FeatureTable"}
 
-func callString(fn, in string) (pnc string) {
+func callString(fn, in string) (pnc string, accepted bool) {
 	defer func() {
 		if x := recover(); x != nil {
 			pnc = fmt.Sprintf("%v\n%s", x, debug.Stack())
 		}
 	}()
+	var err error
 	switch fn {
 	case "AsLocation":
-		gts.AsLocation(in)
+		_, err = gts.AsLocation(in)
 	case "AsLocator":
-		if loc, err := gts.AsLocator(in); err == nil && loc != nil {
+		var loc gts.Locator
+		if loc, err = gts.AsLocator(in); err == nil && loc != nil {
 			// a locator is only useful applied to a sequence
 			loc(gts.New(nil, gts.FeatureSlice{gts.NewFeature("CDS", gts.Range(2, 20), gts.Props{[]string{"gene", "A"}})}, []byte(strings.Repeat("acgt", 10))))
 		}
 	case "AsModifier":
-		if mod, err := gts.AsModifier(in); err == nil && mod != nil {
+		var mod gts.Modifier
+		if mod, err = gts.AsModifier(in); err == nil && mod != nil {
 			gts.Segment{5, 15}.Resize(mod)
 		}
 	case "Selector":
-		if f, err := gts.Selector(in); err == nil && f != nil {
+		var f gts.Filter
+		if f, err = gts.Selector(in); err == nil && f != nil {
 			f(gts.NewFeature("CDS", gts.Range(2, 20), gts.Props{[]string{"gene", "A"}}))
 		}
 	case "AsDate":
-		seqio.AsDate(in)
+		_, err = seqio.AsDate(in)
 	case "AsMolecule":
-		gts.AsMolecule(in)
+		_, err = gts.AsMolecule(in)
 	case "AsTopology":
-		gts.AsTopology(in)
+		_, err = gts.AsTopology(in)
 	case "FeatureTable":
-		seqio.INSDCTableParser("").Parse(pars.FromString(in))
+		_, err = seqio.INSDCTableParser("").Parse(pars.FromString(in))
 	}
-	return ""
+	return "", err == nil
 }
 
 func mutateString(r *core.RNG, s string) string {
@@ -711,6 +734,156 @@ func mutateString(r *core.RNG, s string) string {
 	return string(b)
 }
 
+// ---- scaling (T7) ----
+
+var scalingShapes = []string{"comment-lines", "definition-lines", "features", "qualifiers", "qualifier-lines", "origin", "records", "fasta-lines", "fasta-records", "dblink", "references", "keywords", "extra-fields", "unknown-lines"}
+
+// scaledStream builds a well-formed stream in which one part has n units.
+func scaledStream(shape string, n int) []byte {
+	var b bytes.Buffer
+	origin := func(k int) string {
+		var o bytes.Buffer
+		seq := bytes.Repeat([]byte("acgtacgtac"), k/10+1)[:k]
+		o.WriteString("ORIGIN      \n")
+		o.Write(seqio.NewOrigin(seq).Buffer)
+		return o.String()
+	}
+	head := func(length int) {
+		fmt.Fprintf(&b, "LOCUS       %-17s %10d bp    DNA     linear   SYN 01-JAN-2000\n", "SCALE", length)
+	}
+	switch shape {
+	case "fasta-lines":
+		b.WriteString(">scaled\n")
+		for i := 0; i < n; i++ {
+			b.WriteString("ACGTACGTACGTACGTACGTACGTACGTACGTACGTACGTACGTACGTACGTACGTACGTACGTACGTAC\n")
+		}
+		return b.Bytes()
+	case "fasta-records":
+		for i := 0; i < n; i++ {
+			fmt.Fprintf(&b, ">r%d\nACGTACGTACGTACGT\n", i)
+		}
+		return b.Bytes()
+	case "records":
+		for i := 0; i < n; i++ {
+			head(20)
+			b.WriteString("DEFINITION  x.\nFEATURES             Location/Qualifiers\n     gene            1..10\n")
+			b.WriteString(origin(20))
+			b.WriteString("//\n")
+		}
+		return b.Bytes()
+	}
+	length := 60
+	if shape == "origin" {
+		length = 60 * n
+	}
+	head(length)
+	switch shape {
+	case "definition-lines":
+		b.WriteString("DEFINITION  first line")
+		for i := 0; i < n; i++ {
+			b.WriteString("\n            continuation line of the definition")
+		}
+		b.WriteString(".\n")
+	default:
+		b.WriteString("DEFINITION  x.\n")
+	}
+	switch shape {
+	case "dblink":
+		b.WriteString("DBLINK      BioProject: PRJ0\n")
+		for i := 1; i < n; i++ {
+			fmt.Fprintf(&b, "            Db%d: ID%d\n", i, i)
+		}
+	case "keywords":
+		b.WriteString("KEYWORDS    k0")
+		for i := 1; i < n; i++ {
+			fmt.Fprintf(&b, ";\n            keyword number %d", i)
+		}
+		b.WriteString(".\n")
+	case "references":
+		for i := 0; i < n; i++ {
+			fmt.Fprintf(&b, "REFERENCE   %d  (bases 1 to 60)\n  AUTHORS   A,B.\n  TITLE     t\n", i%900+1)
+		}
+	case "comment-lines":
+		b.WriteString("COMMENT     first line")
+		for i := 0; i < n; i++ {
+			b.WriteString("\n            another line of the comment")
+		}
+		b.WriteString("\n")
+	case "extra-fields":
+		for i := 0; i < n; i++ {
+			b.WriteString("PROJECT     value\n")
+		}
+	case "unknown-lines":
+		for i := 0; i < n; i++ {
+			b.WriteString("   this line is not a field and is skipped\n")
+		}
+	}
+	b.WriteString("FEATURES             Location/Qualifiers\n")
+	switch shape {
+	case "features":
+		for i := 0; i < n; i++ {
+			fmt.Fprintf(&b, "     gene            %d..%d\n                     /gene=\"g%d\"\n", i%50+1, i%50+5, i)
+		}
+	case "qualifiers":
+		b.WriteString("     gene            1..10\n")
+		for i := 0; i < n; i++ {
+			fmt.Fprintf(&b, "                     /note=\"value %d\"\n", i)
+		}
+	case "qualifier-lines":
+		b.WriteString("     gene            1..10\n                     /note=\"first")
+		for i := 0; i < n; i++ {
+			b.WriteString("\n                     more text of the note")
+		}
+		b.WriteString("\"\n")
+	default:
+		b.WriteString("     gene            1..10\n")
+	}
+	b.WriteString(origin(length))
+	b.WriteString("//\n")
+	return b.Bytes()
+}
+
+func allocatedBy(f func()) uint64 {
+	var a, b runtime.MemStats
+	runtime.ReadMemStats(&a)
+	f()
+	runtime.ReadMemStats(&b)
+	return b.TotalAlloc - a.TotalAlloc
+}
+
+// runScaling applies T7: the memory the scanner allocates grows linearly with
+// the stream. Allocation is the deterministic stand-in for work; a quadratic
+// accumulation (string concatenation in a loop, re-copying a growing buffer)
+// quadruples-squared when the input quadruples.
+func (x *c07Run) runScaling(sc *c07Scenario) {
+	core.Current, core.CurrentSig = sc, "scaling"
+	core.Tick()
+	small, large := scaledStream(sc.Shape, sc.N), scaledStream(sc.Shape, 4*sc.N)
+	var r1, r2 scanResult
+	processBoundary()
+	scanAll(small, simpipe.Spec{CutAt: -1}, 0) // warm-up: lazily built parser tables are not the stream's cost
+	a1 := allocatedBy(func() { r1 = scanAll(small, simpipe.Spec{CutAt: -1}, 0) })
+	core.Tick()
+	a2 := allocatedBy(func() { r2 = scanAll(large, simpipe.Spec{CutAt: -1}, 0) })
+	x.res.Evaluations += 2
+	x.res.SimOps += r1.Reads + r2.Reads
+	x.res.Probes["scaling_cases"]++
+	if r1.Panic != "" || r2.Panic != "" {
+		x.violate(sc, "panic", panicSite(r1.Panic+r2.Panic), "scanner panicked on a scaled stream: "+firstLine(r1.Panic+r2.Panic))
+		return
+	}
+	if r1.Err != nil || r2.Err != nil || len(r1.Seqs) == 0 {
+		x.res.Harness = fmt.Sprintf("c07 scaling: the %s stream is not well-formed: %v / %v", sc.Shape, r1.Err, r2.Err)
+		return
+	}
+	ratio := float64(a2) / float64(a1+1)
+	x.key("scaling|" + sc.Shape)
+	// input x4: linear work gives about x4 (less with fixed overhead); x16 is quadratic
+	if ratio > 9 && a2 > 1<<20 {
+		x.violate(sc, "superlinear-allocation", sc.Shape, fmt.Sprintf("%s: %d units (%d bytes) allocate %d bytes, %d units (%d bytes) allocate %d bytes: x%.1f for x%.1f input", sc.Shape, sc.N, len(small), a1, 4*sc.N, len(large), a2, ratio, float64(len(large))/float64(len(small))))
+	}
+}
+
 // ---- engine ----
 
 type C07 struct{}
@@ -740,14 +913,14 @@ func (C07) Runs(tier string) int {
 	if tier == "thorough" {
 		return 40000
 	}
-	return 1600
+	return 1200
 }
 
 func (C07) RunSeed(tier string, seed uint64, idx int) *core.Result {
 	r := core.NewRNG(seed)
 	res := &core.Result{Seed: seed, Probes: map[string]int{"length_consistency_cases": 0, "chunk_invariance_cases": 0}, Faults: map[string]int{}, Extended: map[string]int{}}
 	x := &c07Run{res: res}
-	mode := r.Pick([]int{40, 30, 15, 15})
+	mode := r.Pick([]int{40, 30, 15, 15, 6})
 	switch mode {
 	case 0: // A: fault sweep over an unedited stream
 		sc := &c07Scenario{Kind: "stream", Parts: genParts(r), CRLF: r.Chance(1, 6)}
@@ -868,6 +1041,12 @@ func (C07) RunSeed(tier string, seed uint64, idx int) *core.Result {
 				res.Sample, _ = json.Marshal(sc)
 			}
 		}
+	case 4: // E: scaling
+		sc := &c07Scenario{Kind: "scaling", Shape: scalingShapes[r.Intn(len(scalingShapes))], N: r.Range(400, 900)}
+		x.runScaling(sc)
+		if idx%40 == 4 {
+			res.Sample, _ = json.Marshal(sc)
+		}
 	case 3: // D: strings
 		k := 400
 		if tier == "thorough" {
@@ -881,11 +1060,17 @@ func (C07) RunSeed(tier string, seed uint64, idx int) *core.Result {
 			core.Current, core.CurrentSig = sc, "string:"+fn
 			res.Evaluations++
 			core.Tick()
-			pnc := callString(fn, in)
-			oc := "returned"
+			pnc, ok1 := callString(fn, in)
+			oc := "rejected"
+			if ok1 {
+				oc = "accepted"
+			}
 			if pnc != "" {
 				oc = "panic"
 				x.violate(sc, "panic", panicSite(pnc), fmt.Sprintf("%s(%q) panicked: %s", fn, in, firstLine(pnc)))
+			} else if pnc2, ok2 := callString(fn, in); pnc2 == "" && ok1 != ok2 {
+				// the same string interpreted twice in one process
+				x.violate(sc, "rescan-variance", "string:"+fn, fmt.Sprintf("%s(%q) accepted=%v the first time and accepted=%v the second time in the same process", fn, in, ok1, ok2))
 			}
 			x.key("string|" + fn + "|" + oc)
 			if idx%40 == 3 && i == 0 {
@@ -920,8 +1105,17 @@ func (C07) Replay(raw json.RawMessage) ([]core.Violation, string, error) {
 	x := &c07Run{res: res}
 	if sc.Kind == "string" {
 		core.Current, core.CurrentSig = &sc, "string:"+sc.Func
-		if pnc := callString(sc.Func, sc.Input); pnc != "" {
+		if pnc, ok1 := callString(sc.Func, sc.Input); pnc != "" {
 			x.violate(&sc, "panic", panicSite(pnc), fmt.Sprintf("%s(%q) panicked: %s", sc.Func, sc.Input, firstLine(pnc)))
+		} else if pnc2, ok2 := callString(sc.Func, sc.Input); pnc2 == "" && ok1 != ok2 {
+			x.violate(&sc, "rescan-variance", "string:"+sc.Func, fmt.Sprintf("%s(%q) accepted=%v the first time and accepted=%v the second time in the same process", sc.Func, sc.Input, ok1, ok2))
+		}
+		return x.vs, digestOf(res), nil
+	}
+	if sc.Kind == "scaling" {
+		x.runScaling(&sc)
+		if res.Harness != "" {
+			return nil, "", fmt.Errorf("%s", res.Harness)
 		}
 		return x.vs, digestOf(res), nil
 	}
@@ -951,6 +1145,14 @@ func (C07) Candidates(raw json.RawMessage) []json.RawMessage {
 	emit := func(c c07Scenario) {
 		b, _ := json.Marshal(c)
 		out = append(out, b)
+	}
+	if sc.Kind == "scaling" {
+		if sc.N > 400 {
+			c := cl()
+			c.N = 400
+			emit(c)
+		}
+		return out
 	}
 	if sc.Kind == "string" {
 		for i := 0; i < len(sc.Input); i++ {
